@@ -22,7 +22,7 @@ RULE = ('E1 (Hypothesis): left GeoDataFrame with a point column (duplicates, mis
         'distinct = distinct cases.')
 ASSUMPTIONS = ['row order and column order are not asserted', 'dtype of columns that acquire NaN is not asserted (values compared numerically)']
 BUDGET = {'quick': {'shards': 16, 'examples': 1600, 'min_evaluations': 800},
-          'thorough': {'shards': 16, 'examples': 32000, 'min_evaluations': 16000}}
+          'thorough': {'shards': 16, 'examples': 12000, 'min_evaluations': 6000}}
 
 
 def _val(v):
